@@ -282,7 +282,7 @@ pub fn run(ctx: &mut Ctx) -> Verdict {
     cmd.args(["remote", "--netconf-host", "127.0.0.1", "--netconf-port", "1", "--ca-cert-path"]).arg(format!("{PKI}/ca.crt"));
     cmd.arg("--client-cert-path").arg(cert_arg).arg("--client-key-path").arg(key_arg);
     cmd.stdin(Stdio::null()).stdout(Stdio::piped()).stderr(Stdio::piped());
-    let mut child = match cmd.spawn() {
+    let mut child = match crate::core::spawn_retry(&mut cmd) {
         Ok(c) => c,
         Err(e) => return Verdict::violation("harness-error", format!("spawn {:?}: {e}", agentbin_path())),
     };
